@@ -31,9 +31,10 @@ def drvSweep (toks : List String) : String :=
   match toks with
   | n :: rest =>
     let polys := readPolys n.toNat! rest
-    match sweep polys with
-    | .ok ts =>
+    match sweepMon polys with
+    | .ok (ts, mono) =>
       s!"ok {ts.length}" ++ String.join (ts.map (fun t => s!" {fpt t.1} {fpt t.2.1} {fpt t.2.2}"))
+        ++ (if mono then "" else " mono=0")
     | .error (.overlap k p) => s!"err overlap {k.name} {fpt p}"
     | .error (.duplicate p) => s!"err duplicate {fpt p}"
     | .error .nonFinite => "err nonfinite"
@@ -96,9 +97,10 @@ def drvSweepQ (toks : List String) : String :=
   match toks with
   | n :: rest =>
     let polys := readPolysQ n.toNat! rest
-    match sweep polys with
-    | .ok ts =>
+    match sweepMon polys with
+    | .ok (ts, mono) =>
       s!"ok {ts.length}" ++ String.join (ts.map (fun t => s!" {fptq t.1} {fptq t.2.1} {fptq t.2.2}"))
+        ++ (if mono then "" else " mono=0")
     | .error (.overlap k p) => s!"err overlap {k.name} {fptq p}"
     | .error (.duplicate p) => s!"err duplicate {fptq p}"
     | .error .nonFinite => "err nonfinite"
